@@ -357,6 +357,38 @@ def replace_all_uses_with(
         replacements = (replacements,)
     if len(values) != len(replacements):
         raise ValueError("The number of values and replacements must match.")
+    # Check every pair before the first one is applied, so that nothing is modified when one of
+    # them is rejected. Whether a pair is accepted can depend on the pairs before it (a replacement
+    # becomes a graph output and is then owned by that graph, a replaced value stops being one),
+    # so the ownership changes of the earlier pairs are simulated:
+    # value -> (is a graph output, owning graph)
+    simulated: dict[Any, tuple[bool, Any]] = {}
+
+    def ownership(value: Any) -> tuple[bool, Any]:
+        if value in simulated:
+            return simulated[value]
+        return value.is_graph_output(), value._graph  # pylint: disable=protected-access
+
+    for value, replacement in zip(values, replacements):
+        is_output, graph = ownership(value)
+        if not is_output:
+            continue
+        if not replace_graph_outputs:
+            raise ValueError(
+                f"{value!r} is an output of graph {graph.name!r}. "
+                "Set replace_graph_outputs=True or replace the graph output frist before "
+                "calling replace_all_uses_with."
+            )
+        _, replacement_graph = ownership(replacement)
+        if replacement_graph is not None and replacement_graph is not graph:
+            raise ValueError(
+                f"Value '{replacement}' is already an output of a different graph. "
+                "Please remove the value from the previous graph first"
+            )
+        if replacement is not value:
+            simulated[replacement] = (True, graph)
+            still_owned = value.is_graph_input() or value.is_initializer()
+            simulated[value] = (False, graph if still_owned else None)
     for value, replacement in zip(values, replacements):
         value.replace_all_uses_with(replacement, replace_graph_outputs=replace_graph_outputs)
 
